@@ -48,6 +48,16 @@ struct SheetSpec {
     /// `Some(k)` = the (wrong) number k — the attribute must not influence what is reported
     #[serde(default, skip_serializing_if = "Option::is_none")]
     cnt: Option<i64>,
+    /// other CT_Worksheet children, in schema order, none of which declares a merged region:
+    /// bit 0 before `sheetData`: sheetPr, sheetViews, sheetFormatPr, cols;
+    /// bit 1 between `sheetData` and `mergeCells`: sheetCalcPr, sheetProtection, protectedRanges, autoFilter;
+    /// bit 2 `customSheetViews` whose views nest pane/selection/rowBreaks/pageMargins/printOptions/pageSetup/
+    ///       headerFooter/autoFilter (names of later siblings, one level down);
+    /// bit 3 after `mergeCells`: phoneticPr, conditionalFormatting, dataValidations, hyperlinks;
+    /// bit 4 print settings: printOptions, pageMargins, pageSetup, headerFooter, rowBreaks, colBreaks;
+    /// bit 5 after `tableParts`: extLst
+    #[serde(default)]
+    kids: u8,
 }
 
 #[derive(Clone, Debug, Serialize, Deserialize, PartialEq)]
@@ -355,6 +365,76 @@ fn q(pre: &str, n: &str) -> String {
     }
 }
 
+/// `<name a="v" …>` children `</name>`
+fn el(pre: &str, name: &str, attrs: &[(&str, &str)], children: Vec<Ev>) -> Vec<Ev> {
+    let mut v = vec![Ev::Start(q(pre, name), attrs.iter().map(|(k, x)| (k.to_string(), x.to_string())).collect())];
+    v.extend(children);
+    v.push(Ev::End(q(pre, name)));
+    v
+}
+
+/// CT_Worksheet children that precede `sheetData`
+fn sheet_children_before(pre: &str, kids: u8) -> Vec<Ev> {
+    let mut v = vec![];
+    if kids & 1 != 0 {
+        v.extend(el(pre, "sheetPr", &[("codeName", "mergeCells")], [el(pre, "tabColor", &[("rgb", "FFFF0000")], vec![]), el(pre, "pageSetUpPr", &[("fitToPage", "1")], vec![])].concat()));
+        let sel = el(pre, "selection", &[("activeCell", "B2"), ("sqref", "B2:C3")], vec![]);
+        let view = el(pre, "sheetView", &[("workbookViewId", "0")], [el(pre, "pane", &[("ySplit", "1"), ("topLeftCell", "A2"), ("state", "frozen")], vec![]), sel].concat());
+        v.extend(el(pre, "sheetViews", &[], view));
+        v.extend(el(pre, "sheetFormatPr", &[("defaultRowHeight", "15")], vec![]));
+        v.extend(el(pre, "cols", &[], el(pre, "col", &[("min", "1"), ("max", "3"), ("width", "12.5"), ("customWidth", "1")], vec![])));
+    }
+    v
+}
+
+/// CT_Worksheet children between `sheetData` and `mergeCells`
+fn sheet_children_mid(pre: &str, kids: u8) -> Vec<Ev> {
+    let mut v = vec![];
+    if kids & 2 != 0 {
+        v.extend(el(pre, "sheetCalcPr", &[("fullCalcOnLoad", "1")], vec![]));
+        v.extend(el(pre, "sheetProtection", &[("sheet", "1"), ("objects", "1")], vec![]));
+        v.extend(el(pre, "protectedRanges", &[], el(pre, "protectedRange", &[("sqref", "A1:B2"), ("name", "mergeCell")], vec![])));
+        v.extend(el(pre, "autoFilter", &[("ref", "A1:C9")], el(pre, "filterColumn", &[("colId", "0")], vec![])));
+    }
+    if kids & 4 != 0 {
+        let inner = [
+            el(pre, "pane", &[("ySplit", "2")], vec![]),
+            el(pre, "selection", &[("sqref", "A1")], vec![]),
+            el(pre, "rowBreaks", &[("count", "1")], el(pre, "brk", &[("id", "5"), ("man", "1")], vec![])),
+            el(pre, "pageMargins", &[("left", "0.7"), ("right", "0.7"), ("top", "0.75"), ("bottom", "0.75"), ("header", "0.3"), ("footer", "0.3")], vec![]),
+            el(pre, "printOptions", &[("gridLines", "1")], vec![]),
+            el(pre, "pageSetup", &[("orientation", "landscape")], vec![]),
+            el(pre, "headerFooter", &[], el(pre, "oddHeader", &[], vec![Ev::Text("&C mergeCells".into())])),
+            el(pre, "autoFilter", &[("ref", "A1:B5")], vec![]),
+        ]
+        .concat();
+        let view = el(pre, "customSheetView", &[("guid", "{7F2B1C5A-0000-4000-8000-000000000001}"), ("scale", "85")], inner);
+        v.extend(el(pre, "customSheetViews", &[], view));
+    }
+    v
+}
+
+/// CT_Worksheet children after `mergeCells` (and before `tableParts`)
+fn sheet_children_after(pre: &str, kids: u8) -> Vec<Ev> {
+    let mut v = vec![];
+    if kids & 8 != 0 {
+        v.extend(el(pre, "phoneticPr", &[("fontId", "1")], vec![]));
+        let rule = el(pre, "cfRule", &[("type", "cellIs"), ("priority", "1"), ("operator", "greaterThan")], el(pre, "formula", &[], vec![Ev::Text("5".into())]));
+        v.extend(el(pre, "conditionalFormatting", &[("sqref", "A1:C3")], rule));
+        v.extend(el(pre, "dataValidations", &[("count", "1")], el(pre, "dataValidation", &[("type", "whole"), ("sqref", "D4:D9")], vec![])));
+        v.extend(el(pre, "hyperlinks", &[], el(pre, "hyperlink", &[("ref", "A1:B2"), ("location", "Sheet1!A1")], vec![])));
+    }
+    if kids & 16 != 0 {
+        v.extend(el(pre, "printOptions", &[("horizontalCentered", "1")], vec![]));
+        v.extend(el(pre, "pageMargins", &[("left", "0.7"), ("right", "0.7"), ("top", "0.75"), ("bottom", "0.75"), ("header", "0.3"), ("footer", "0.3")], vec![]));
+        v.extend(el(pre, "pageSetup", &[("paperSize", "9")], vec![]));
+        v.extend(el(pre, "headerFooter", &[], el(pre, "oddFooter", &[], vec![Ev::Text("&P".into())])));
+        v.extend(el(pre, "rowBreaks", &[("count", "1"), ("manualBreakCount", "1")], el(pre, "brk", &[("id", "3"), ("max", "16383"), ("man", "1")], vec![])));
+        v.extend(el(pre, "colBreaks", &[("count", "1")], el(pre, "brk", &[("id", "2"), ("max", "1048575"), ("man", "1")], vec![])));
+    }
+    v
+}
+
 fn build_xlsx(spec: &XlsxSpec) -> BuiltX {
     let mut l = if spec.layout == 0 { Layout::plain() } else { Layout::random(&mut Rng::new(spec.layout)) };
     // knobs that expose defects owned by other properties (C01/C16/C19) stay on their plain setting
@@ -365,13 +445,20 @@ fn build_xlsx(spec: &XlsxSpec) -> BuiltX {
     let pre = l.prefix.clone();
     let mut book = XlsxBook::new();
     let mut extras: Vec<Vec<Ev>> = vec![];
+    let mut extras_before: Vec<Vec<Ev>> = vec![];
     let mut my_parts: Vec<(String, Vec<Ev>)> = vec![];
     for (i, sh) in spec.sheets.iter().enumerate() {
         let mut xs = XlsxSheet::new(&sh.name);
         for c in &sh.cells {
             xs.set(c[0], c[1], XCell::num(&c[2].to_string()));
         }
-        let mut evs: Vec<Ev> = vec![];
+        let before = sheet_children_before(&pre, sh.kids);
+        if !before.is_empty() {
+            let mut r2 = cos.fork();
+            xs.extra_before_sheet_data = xlsxw::serialize(&before, || r2.chance(1, 2));
+        }
+        extras_before.push(before);
+        let mut evs: Vec<Ev> = sheet_children_mid(&pre, sh.kids);
         if !sh.merges.is_empty() || sh.mc_empty {
             let mc_attrs = match sh.cnt {
                 None => vec![("count".to_string(), sh.merges.len().to_string())],
@@ -397,6 +484,7 @@ fn build_xlsx(spec: &XlsxSpec) -> BuiltX {
             }
             evs.push(Ev::End(q(&pre, "mergeCells")));
         }
+        evs.extend(sheet_children_after(&pre, sh.kids));
         let tabs: Vec<usize> = (0..spec.tables.len()).filter(|k| spec.tables[*k].sheet == i).collect();
         if !tabs.is_empty() {
             evs.push(Ev::Start(q(&pre, "tableParts"), vec![("count".into(), tabs.len().to_string())]));
@@ -433,6 +521,9 @@ fn build_xlsx(spec: &XlsxSpec) -> BuiltX {
             rels.push(Ev::End("Relationships".into()));
             evs.push(Ev::End(q(&pre, "tableParts")));
             my_parts.push((format!("xl/worksheets/_rels/sheet{}.xml.rels", i + 1), rels));
+        }
+        if sh.kids & 32 != 0 {
+            evs.extend(el(&pre, "extLst", &[], el(&pre, "ext", &[("uri", "{78C0D931-6437-407d-A8EE-F0AAD7539E65}")], vec![])));
         }
         if !evs.is_empty() {
             let mut r2 = cos.fork();
@@ -550,6 +641,7 @@ fn build_xlsx(spec: &XlsxSpec) -> BuiltX {
         for e in evs {
             match e {
                 Ev::Other(raw) if !extras[i].is_empty() && *raw == book.sheets[i].extra_after_sheet_data => full.extend(extras[i].iter().cloned()),
+                Ev::Other(raw) if !extras_before[i].is_empty() && *raw == book.sheets[i].extra_before_sheet_data => full.extend(extras_before[i].iter().cloned()),
                 e => full.push(e.clone()),
             }
         }
@@ -954,6 +1046,13 @@ fn eval_xlsx(spec: &XlsxSpec, drv: &mut Driver, mode: &str) -> Outcome {
     out.counters.push(format!("xlsx.regions={}", match nm { 0 => "0", 1..=3 => "1-3", 4..=8 => "4-8", _ => "9+" }));
     out.counters.push(format!("xlsx.tables={}", spec.tables.len()));
     for t in &spec.tables {
+        let area = (t.r[2] as u64 - t.r[0] as u64 + 1) * (t.r[3] as u64 - t.r[1] as u64 + 1);
+        out.counters.push(format!("table.cells={}", if area >= 4096 { ">=4096" } else { "<4096" }));
+    }
+    if spec.sheets.iter().any(|s| s.kids != 0) {
+        out.counters.push("xlsx.other_worksheet_children".into());
+    }
+    for t in &spec.tables {
         out.counters.push(format!("table.hdr={},tot={}", t.hdr.map(|h| h.to_string()).unwrap_or("default".into()), t.tot.map(|h| h.to_string()).unwrap_or("default".into())));
         out.counters.push(format!("table.target={}", if t.abs { "absolute" } else { "relative" }));
         let sh = &spec.sheets[t.sheet];
@@ -1265,6 +1364,7 @@ fn gen_xlsx(rng: &mut Rng) -> XlsxSpec {
                 1 => Some(*rng.pick(&[0i64, 1, 2, 7, 4_294_967_295])),
                 _ => None,
             },
+            kids: if rng.chance(1, 3) { 0 } else { rng.below(64) as u8 },
         });
     }
     let nt = if rng.chance(1, 4) { 0 } else { rng.range(1, 4) } as usize;
@@ -1314,6 +1414,58 @@ fn gen_xlsx(rng: &mut Rng) -> XlsxSpec {
         });
     }
     XlsxSpec { layout: if rng.chance(1, 8) { 0 } else { rng.next() | 1 }, sheets, tables }
+}
+
+/// a big table (4096 … ~2^15 cells) on a used range of the same width whose columns are shifted against the
+/// table's (or equal, or of another width): the data must still be the cells of the table's own rectangle
+fn gen_xlsx_big(rng: &mut Rng) -> XlsxSpec {
+    let w = rng.range(2, 12) as u32;
+    let more = if rng.chance(1, 4) { 3000 } else { 120 };
+    let rows = (4096 + w - 1) / w + rng.below(more) as u32;
+    let r0 = if rng.chance(1, 2) { rng.below(30) as u32 } else { pick_row(rng).min(MAX_ROW - rows - 40) };
+    let c0 = 2 + if rng.chance(1, 2) { rng.below(20) as u32 } else { pick_col(rng).min(MAX_COL - 40) };
+    // used range: rows r0 ..= r0+rows+extra, columns c0 ..= c0+uw-1
+    let uw = if rng.chance(3, 4) { w } else { w + rng.range(1, 3) as u32 };
+    let extra = rng.below(20) as u32;
+    let (ur0, ur1) = (r0, r0 + rows + extra);
+    let mut cells: BTreeMap<(u32, u32), u32> = BTreeMap::new();
+    cells.insert((ur0, c0), 1);
+    cells.insert((ur1, c0 + uw - 1), 2);
+    for k in 0..rng.range(8, 40) {
+        cells.insert((rng.range(ur0 as u64, ur1 as u64) as u32, c0 + rng.below(uw as u64) as u32), 3 + k as u32);
+    }
+    // the table: as wide as the used range (mostly), shifted left / right by 0..2 columns, rows overlapping
+    let shift = *rng.pick(&[-2i64, -1, -1, 0, 1, 1, 2]);
+    let tc0 = (c0 as i64 + shift) as u32;
+    let hdr = *rng.pick(&[None, Some(1), Some(0)]);
+    let tot = *rng.pick(&[None, Some(0), Some(1)]);
+    let tr0 = (ur0 + rng.below(extra as u64 + 1) as u32).saturating_sub(rng.below(3) as u32);
+    let tr1 = tr0 + rows - 1 + hdr.unwrap_or(1) + tot.unwrap_or(0);
+    let cols = (0..w).map(|j| format!("Column{}", j + 1)).collect();
+    let table = TableSpec {
+        sheet: 0,
+        name: "Big".into(),
+        r: [tr0, tc0, tr1, tc0 + w - 1],
+        hdr,
+        tot,
+        ins: None,
+        cols,
+        abs: rng.chance(1, 4),
+        x: vec![],
+        rr: None,
+        alt: None,
+        ord: 0,
+        kids: 0,
+    };
+    let sheet = SheetSpec {
+        name: "Big".into(),
+        cells: cells.into_iter().map(|((r, c), v)| [r, c, v]).collect(),
+        merges: vec![],
+        mc_empty: false,
+        cnt: None,
+        kids: if rng.chance(1, 2) { 0 } else { rng.below(64) as u8 },
+    };
+    XlsxSpec { layout: if rng.chance(1, 4) { 0 } else { rng.next() | 1 }, sheets: vec![sheet], tables: vec![table] }
 }
 
 fn gen_xls(rng: &mut Rng) -> XlsSpec {
@@ -1387,6 +1539,18 @@ fn xlsx_candidates(s: &XlsxSpec) -> Vec<XlsxSpec> {
         }
     }
     for i in 0..s.sheets.len() {
+        if s.sheets[i].kids != 0 {
+            let mut c = s.clone();
+            c.sheets[i].kids = 0;
+            v.push(c);
+            for b in 0..6 {
+                if s.sheets[i].kids & (1 << b) != 0 && s.sheets[i].kids != 1 << b {
+                    let mut c = s.clone();
+                    c.sheets[i].kids = 1 << b;
+                    v.push(c);
+                }
+            }
+        }
         if s.sheets[i].cnt.is_some() {
             let mut c = s.clone();
             c.sheets[i].cnt = None;
@@ -1551,6 +1715,12 @@ fn corpus() -> Vec<String> {
         // garbled and reversed table references: Err or an empty data range, never a panic
         r#"xlsx {"layout":0,"sheets":[{"name":"Sheet1","cells":[[0,0,1]],"merges":[]}],"tables":[{"sheet":0,"name":"Table1","r":[0,0,1,0],"hdr":1,"tot":null,"cols":["a"],"abs":false,"rr":"B2:A1"}]}"#.into(),
         r#"xlsx {"layout":0,"sheets":[{"name":"Sheet1","cells":[[0,0,1]],"merges":[]}],"tables":[{"sheet":0,"name":"Table1","r":[0,0,1,0],"hdr":1,"tot":null,"cols":["a"],"abs":false,"rr":"A"}]}"#.into(),
+        // seeded change C17-m6: elements named like later siblings of mergeCells, nested in customSheetViews (which
+        // precedes mergeCells), must not end the scan; all other worksheet children at once
+        r#"xlsx {"layout":0,"sheets":[{"name":"Sheet1","cells":[],"merges":[{"r":[8,9,29,6634],"f":2}],"kids":4}],"tables":[]}"#.into(),
+        r#"xlsx {"layout":0,"sheets":[{"name":"Sheet1","cells":[[0,0,1],[2,2,2]],"merges":[{"r":[0,0,1,1],"f":0},{"r":[3,3,3,5],"f":0}],"kids":63},{"name":"S2","cells":[],"merges":[],"kids":63}],"tables":[{"sheet":0,"name":"Table1","r":[0,0,2,2],"hdr":1,"tot":null,"cols":["a","b","c"],"abs":false}]}"#.into(),
+        // seeded change C17-m8: a table of >= 4096 cells as wide as the used range but one column to the left
+        r#"xlsx {"layout":0,"sheets":[{"name":"Big","cells":[[9,18,1],[1371,19,16],[1414,20,2]],"merges":[]}],"tables":[{"sheet":0,"name":"Big","r":[15,17,1412,19],"hdr":1,"tot":0,"cols":["Column1","Column2","Column3"],"abs":false}]}"#.into(),
         // several sheets, regions at the far corner, attribution
         r#"xlsx {"layout":0,"sheets":[{"name":"A","cells":[],"merges":[{"r":[1048575,16383,1048575,16383],"f":0},{"r":[0,0,1048575,16383],"f":0}]},{"name":"B","cells":[[3,3,7]],"merges":[]},{"name":"C","cells":[],"merges":[{"r":[5,26,9,702],"f":3}],"mc_empty":true}],"tables":[]}"#.into(),
         // xls: two records, regions at IV65536
@@ -1585,7 +1755,10 @@ fn main() {
          (totalsRowShown, *DxfId, *CellStyle, published, tableType, insertRowShift, comment, prefixed \
          attributes) in shuffled order, name != displayName, autoFilter with filterColumn/sortState refs or \
          absent, tableColumn attributes and formula children, tableStyleInfo absent, extLst, whitespace; \
-         mergeCells count wrong or missing, extra attributes before/after a mergeCell ref) and xls (1-3 sheets, 0-3 MERGEDCELLS records of 0-1027 regions among the cell records); \
+         mergeCells count wrong or missing, extra attributes before/after a mergeCell ref; the other \
+         CT_Worksheet children in schema order around sheetData/mergeCells, customSheetViews nesting \
+         pageMargins/printOptions/pageSetup/headerFooter; every 40th file a table of 4096..~2^15 cells on a \
+         used range of the same width shifted by -2..2 columns) and xls (1-3 sheets, 0-3 MERGEDCELLS records of 0-1027 regions among the cell records); \
          oracle = the declared regions (count, order, corners, sheet) and for tables name, sheet, columns \
          and the sheet's values over ref minus header/totals rows; no expectation for malformed/reversed \
          refs, and for the geometry of insertRow tables; a table whose header/totals rows leave no \
@@ -1663,7 +1836,14 @@ fn main() {
                 };
                 for i in 0..my_n {
                     // per file-level case: 4 unit cases of each kind
-                    let c = if i % 5 < 3 { Case::Xlsx(gen_xlsx(&mut rng)) } else { Case::Xls(gen_xls(&mut rng)) };
+                    // every 40th file-level case is a big table (>= 4096 cells) on an equally wide used range
+                    let c = if i % 40 == 7 {
+                        Case::Xlsx(gen_xlsx_big(&mut rng))
+                    } else if i % 5 < 3 {
+                        Case::Xlsx(gen_xlsx(&mut rng))
+                    } else {
+                        Case::Xls(gen_xls(&mut rng))
+                    };
                     send(c, &mut drv);
                     for _ in 0..4 {
                         send(Case::Dim(gen_dim(&mut rng)), &mut drv);
